@@ -506,3 +506,96 @@ def feasibility(timeout_s=5):
             cache[key] = r
         return r
     return f
+
+
+# --------------------------------------------------------------------------- numeric model search (falsification only)
+
+def _var_bounds(conds):
+    """Closed bounds lo <= v / v <= hi that appear as top-level conjuncts, per variable name."""
+    lo, hi = {}, {}
+    flat = []
+    for c in conds:
+        flat.extend(c.args if c.kind == "and" else [c])
+    for c in flat:
+        if c.kind != "le0":
+            continue
+        p = c.args[0]
+        terms = dict(p.terms)
+        const = terms.pop((), Fraction(0))
+        if len(terms) != 1:
+            continue
+        (mono, coef), = terms.items()
+        if len(mono) != 1 or mono[0][1] != 1:
+            continue
+        at = T.Atom._all[mono[0][0]]
+        if at.kind != "var":
+            continue
+        bound = float(-const / coef)          # coef*v + const <= 0
+        if coef > 0:
+            hi[at.args[0]] = min(hi.get(at.args[0], bound), bound)
+        else:
+            lo[at.args[0]] = max(lo.get(at.args[0], bound), bound)
+    return lo, hi
+
+
+def search_model(conds, seed=0, tries=4000, time_s=20.0):
+    """Look for a point satisfying every condition with the *true* exp/ln (floating point evaluation of the same
+    terms the solver was given).  Used only after the solver answered `unknown` on a query whose models can be
+    replayed on the real code: a hit is a counterexample *candidate* (it still has to reproduce), a miss means
+    nothing - `unknown` stays inconclusive.  Never used to conclude that a property holds."""
+    import math
+    import random
+    rnd = random.Random(seed * 7919 + 13)
+    conds = [c for c in conds if not (c.kind == "const" and c.args[0])]
+    atoms = T.collect_atoms(list(conds))
+    vars_ = [a for a in atoms if a.kind == "var"]
+    uf_names = {a.args[0]: a.pos for a in atoms if a.kind == "uf"}
+    lo, hi = _var_bounds(conds)
+    t0 = time.time()
+    for k in range(tries):
+        if time.time() - t0 > time_s:
+            break
+        env = {}
+        for a in vars_:
+            n = a.args[0]
+            l, h = lo.get(n), hi.get(n)
+            if l is None and h is None:
+                l, h = (1e-3, 1e3) if a.pos else (-10.0, 10.0)
+            elif l is None:
+                l = h - 10.0 * max(1.0, abs(h))
+            elif h is None:
+                h = l + 10.0 * max(1.0, abs(l))
+            if a.pos:
+                l = max(l, 1e-9)
+                h = max(h, l)
+            mode = rnd.random()
+            if l > 0 and h / l > 100 and mode < 0.5:
+                v = math.exp(rnd.uniform(math.log(l), math.log(h)))
+            elif mode > 0.9:
+                v = rnd.choice((l, h))
+            else:
+                v = rnd.uniform(l, h)
+            env[n] = v
+        salt = rnd.random()
+        calls = {}
+
+        def mk(name, pos):
+            def f(*args):
+                key = tuple(round(x, 12) for x in args)
+                d = calls.setdefault(name, {})
+                if key not in d:
+                    r = random.Random(hash((name, key, salt)))
+                    d[key] = r.uniform(0.05, 3.0) if pos else r.uniform(-3.0, 3.0)
+                return d[key]
+            return f
+        ufs = {n: mk(n, p) for n, p in uf_names.items()}
+        try:
+            memo = {}
+            if all(T.evalf(c, env, ufs, memo) for c in conds):
+                model = {n: Fraction(repr(v)) for n, v in env.items()}
+                if calls:
+                    model["__uf__"] = {n: [([Fraction(repr(x)) for x in key], Fraction(repr(val))) for key, val in d.items()] for n, d in calls.items()}
+                return Result("sat", time.time() - t0, model, None, {"numeric_search_tries": k + 1})
+        except (T.EvalError, KeyError, OverflowError, ValueError, ZeroDivisionError):
+            continue
+    return Result("unknown", time.time() - t0, {}, None, {"numeric_search_tries": tries})
